@@ -124,7 +124,11 @@ func genC18() {
 	}
 	l.p("/-- arguments of the connectServerStream calls in connectAndAuthenticate / HandleServerShutdown -/")
 	l.p("def firstConnectArgs : List String := %s", flat(c18CallArgs(caa, "c.connectServerStream")))
-	l.p("def reconnectArgs : List String := %s", flat(c18CallArgs(hss, "c.connectServerStream")))
+	recFn := hss
+	if rec := findFunc(auct, "Client.reconnect"); rec != nil {
+		recFn = rec
+	}
+	l.p("def reconnectArgs : List String := %s", flat(c18CallArgs(recFn, "c.connectServerStream")))
 
 	// the retry loop: condition, wait guard, update statements after a failure
 	var loop *ast.ForStmt
@@ -210,22 +214,74 @@ func genC18() {
 
 	// ---- bookkeeping shapes ----
 	// HandleServerShutdown: statements of interest in order
-	var hs []string
-	ast.Inspect(hss.Body, func(n ast.Node) bool {
-		switch x := n.(type) {
-		case *ast.CallExpr:
-			switch f := exprString(x.Fun); f {
-			case "c.closeStream", "c.connectServerStream", "c.checkPendingBatch", "delete", "c.StartAccountSubscription", "c.keepSubscriptions":
-				hs = append(hs, f)
+	// (the body moved into Client.reconnect when HandleServerShutdown
+	// became a loop that starts over while reconnectDirty is set)
+	shape := func(fd *ast.FuncDecl) []string {
+		var hs []string
+		ast.Inspect(fd.Body, func(n ast.Node) bool {
+			switch x := n.(type) {
+			case *ast.CallExpr:
+				switch f := exprString(x.Fun); f {
+				case "c.closeStream", "c.connectServerStream", "c.checkPendingBatch", "delete",
+					"c.StartAccountSubscription", "c.keepSubscriptions", "c.reconnect", "c.HandleServerShutdown":
+					hs = append(hs, f)
+				}
+			case *ast.RangeStmt:
+				hs = append(hs, "range "+exprString(x.X))
+			case *ast.ReturnStmt:
+				hs = append(hs, c18NodeString(x))
+			case *ast.IfStmt:
+				if cs := exprString(x.Cond); strings.Contains(cs, "reconnect") {
+					hs = append(hs, "if "+cs)
+				}
+			case *ast.IncDecStmt:
+				hs = append(hs, c18NodeString(x))
+			case *ast.BranchStmt:
+				hs = append(hs, x.Tok.String())
+			case *ast.AssignStmt:
+				if st := c18NodeString(x); strings.HasPrefix(st, "c.reconnect") {
+					hs = append(hs, st)
+				}
 			}
-		case *ast.RangeStmt:
-			hs = append(hs, "range "+exprString(x.X))
-		case *ast.ReturnStmt:
-			hs = append(hs, c18NodeString(x))
-		}
-		return true
-	})
+			return true
+		})
+		return hs
+	}
+	var hs []string
+	if rec := findFunc(auct, "Client.reconnect"); rec != nil {
+		hs = append(shape(hss), shape(rec)...)
+	} else {
+		hs = shape(hss)
+	}
 	l.p("def handleShutdownShape : List String := %s", leanStrList(hs))
+	// readIncomingStream: what the reader does with a SERVER_SHUTDOWN notice
+	var notice []string
+	if rd := findFunc(auct, "Client.readIncomingStream"); rd != nil {
+		ast.Inspect(rd.Body, func(n ast.Node) bool {
+			cc, ok := n.(*ast.CaseClause)
+			if !ok {
+				return true
+			}
+			hit := false
+			for _, e := range cc.List {
+				if exprString(e) == "auctioneerrpc.SubscribeError_SERVER_SHUTDOWN" {
+					hit = true
+				}
+			}
+			if !hit {
+				return true
+			}
+			for _, st := range cc.Body {
+				notice = append(notice, shape(&ast.FuncDecl{Body: &ast.BlockStmt{List: []ast.Stmt{st}}})...)
+			}
+			return false
+		})
+	} else {
+		fail("Client.readIncomingStream not found")
+		return
+	}
+	l.p("/-- reaction of readIncomingStream to a SERVER_SHUTDOWN notice -/")
+	l.p("def shutdownNoticeReaction : List String := %s", leanStrList(notice))
 	// connectAndAuthenticate: map insertion precedes authenticate; no deletion anywhere
 	var ca []string
 	ast.Inspect(caa.Body, func(n ast.Node) bool {
